@@ -1,8 +1,221 @@
-(* C03 — theorems only (placeholder until the proof files land). *)
+(* C03 — omitted and assigned amounts are inferred exactly.  Theorems only.
+   Vocabulary: Model/BookSpec.v (unconstrained, assignment, bal_before, stored_posting,
+   bal_wf, txn_prefix).  The residual `l_residual st` that the omitted amount negates is
+   characterised as the sum of the other postings' balancing values by
+   C01_residual_is_sum_of_balancing_values. *)
 From Coq Require Import List NArith ZArith Bool QArith Qcanon.
-From Okv Require Import Base.Maps Base.Dec Model.Amount Model.Book.
+From Okv Require Import Base.Maps.
+From Okv Require Import Base.Dec.
+From Okv Require Import Model.Amount.
+From Okv Require Import Model.Book.
+From Okv Require Import Model.BookSpec.
+From Okv Require Import Proofs.BookA_Amount.
+From Okv Require Import Proofs.BookA_Posting.
+From Okv Require Import Proofs.BookA_Loop.
+From Okv Require Import Proofs.BookA_Txn.
+From Okv Require Import Proofs.BookA_Examples.
 Import ListNotations.
+Open Scope Qc_scope.
 
-Theorem C03_nop_entry : forall s, process_entry s ENop = Ok s.
-Proof. reflexivity. Qed.
-Print Assumptions C03_nop_entry.
+(* (1) With posting u omitted the transaction is accepted with exactly this state: posting u
+   stores the negated residual (every commodity of it), every other stored posting is the
+   one the loop produced, accounts are unchanged, and the deduced amount is added to u's
+   account. *)
+Theorem C03_omitted_exact : forall s t st u,
+  txn_loop s t = Ok st -> l_unfilled st = Some u ->
+  exists pu posts',
+    nth_error (t_posts t) u = Some pu /\ unconstrained pu /\
+    add_transaction s t =
+      Ok {| s_bal := bal_add_amount (l_bal st) (p_account pu) (a_neg (l_residual st));
+            s_fmt := s_fmt s;
+            s_events := s_events s ++ rev (l_events st);
+            s_txns := s_txns s ++ [{| o_date := t_date t; o_posts := posts' |}] |} /\
+    length posts' = length (t_posts t) /\
+    map o_account posts' = map p_account (t_posts t) /\
+    nth_error posts' u = Some {| o_account := p_account pu; o_amount := a_neg (l_residual st);
+                                 o_converted := None |} /\
+    (forall j, j <> u -> nth_error posts' j = nth_error (rev (l_posts st)) j).
+Proof. exact omitted_exact. Qed.
+Print Assumptions C03_omitted_exact.
+
+(* the deduced amount is, in every commodity, minus the sum of the other postings' balancing
+   values (posting_bv as in C01_residual_is_sum_of_balancing_values; the omitted posting's
+   own entry in bvs is None and contributes 0) *)
+Theorem C03_omitted_is_negated_sum : forall s t st u,
+  txn_loop s t = Ok st -> l_unfilled st = Some u ->
+  exists bvs,
+    length bvs = length (t_posts t) /\
+    nth_error bvs u = Some None /\
+    (forall k p, nth_error (t_posts t) k = Some p ->
+       exists b o, bal_before s t k b /\ nth_error bvs k = Some o /\ posting_bv b p o) /\
+    forall c, a_get (a_neg (l_residual st)) c = - qc_sum (map (fun o => bv_get o c) bvs).
+Proof. exact omitted_pointwise. Qed.
+Print Assumptions C03_omitted_is_negated_sum.
+
+(* commodity by commodity the deduced amount is the negated residual *)
+Theorem C03_deduced_pointwise : forall a c, a_get (a_neg a) c = - a_get a c.
+Proof. exact a_get_neg. Qed.
+Print Assumptions C03_deduced_pointwise.
+
+(* what "the loop produced" for posting j: the record built from process_posting's result on
+   the running balance at that point *)
+Theorem C03_loop_stored_exact : forall s t st j pj,
+  txn_loop s t = Ok st -> nth_error (t_posts t) j = Some pj ->
+  exists b b' ep ev,
+    bal_before s t j b /\
+    process_posting b (t_date t) j pj = Ok (b', ep, ev) /\
+    bal_before s t (S j) b' /\
+    nth_error (rev (l_posts st)) j = Some (stored_posting pj ep).
+Proof. exact loop_stored_exact. Qed.
+Print Assumptions C03_loop_stored_exact.
+
+(* every accepted transaction, omitted posting or not: sibling amounts are the loop's *)
+Theorem C03_accepted_shape : forall s t s',
+  add_transaction s t = Ok s' ->
+  exists st posts',
+    txn_loop s t = Ok st /\
+    s_fmt s' = s_fmt s /\
+    s_txns s' = s_txns s ++ [{| o_date := t_date t; o_posts := posts' |}] /\
+    length posts' = length (t_posts t) /\
+    map o_account posts' = map p_account (t_posts t) /\
+    (forall j, l_unfilled st <> Some j ->
+       option_map o_amount (nth_error posts' j) =
+       option_map o_amount (nth_error (rev (l_posts st)) j)) /\
+    match l_unfilled st with
+    | Some u => exists pu, nth_error (t_posts t) u = Some pu /\ unconstrained pu /\
+                  s_bal s' = bal_add_amount (l_bal st) (p_account pu) (a_neg (l_residual st)) /\
+                  option_map o_amount (nth_error posts' u) = Some (a_neg (l_residual st))
+    | None => s_bal s' = l_bal st /\ balanced (s_fmt s) (l_residual st)
+    end.
+Proof. exact add_transaction_ok_inv. Qed.
+Print Assumptions C03_accepted_shape.
+
+(* (2) `Account = c v`, one posting: the stored amount is v minus the current holding of c,
+   no other account and no other commodity of the account moves, and the account is left with
+   exactly v of c.  The last part needs distinct commodities in the account's amount when
+   v = 0 (the entry is removed); C03_reachable_wf gives that in every reachable state and
+   BookA_Examples.ex_assign_needs_wf shows it cannot be dropped for arbitrary lists. *)
+Theorem C03_assign_exact : forall b d i p bc c v,
+  assignment p bc -> eval_pa bc = Ok (PSingle c v) ->
+  exists b',
+    process_posting b d i p =
+      Ok (b', Some {| ep_amount := PSingle c (v - a_get (bal_get b (p_account p)) c);
+                      ep_converted := None;
+                      ep_delta := PSingle c (v - a_get (bal_get b (p_account p)) c) |}, None) /\
+    (forall a', a' <> p_account p -> get a' b' = get a' b) /\
+    (forall c', c' <> c -> a_get (bal_get b' (p_account p)) c' = a_get (bal_get b (p_account p)) c') /\
+    (v <> 0 \/ NoDup (keys (bal_get b (p_account p))) -> a_get (bal_get b' (p_account p)) c = v).
+Proof. exact assign_single_exact. Qed.
+Print Assumptions C03_assign_exact.
+
+(* bare `Account = 0`: with at most one commodity held, the stored amount is the negated
+   holding and the account is left empty; with two or more, BalanceFailure *)
+Theorem C03_assign_zero_exact : forall b d i p bc,
+  assignment p bc -> eval_pa bc = Ok PZero ->
+  ((length (bal_get b (p_account p)) <= 1)%nat ->
+   exists amt,
+     process_posting b d i p =
+       Ok (set (p_account p) [] b,
+           Some {| ep_amount := amt; ep_converted := None; ep_delta := amt |}, None) /\
+     pa_to_amount amt = a_neg (bal_get b (p_account p)) /\
+     bal_get (set (p_account p) [] b) (p_account p) = []) /\
+  ((2 <= length (bal_get b (p_account p)))%nat -> process_posting b d i p = Err BalanceFailure).
+Proof. exact assign_zero_exact. Qed.
+Print Assumptions C03_assign_zero_exact.
+
+(* the same inside an accepted transaction: what is stored for assignment posting i *)
+Theorem C03_assign_exact_txn : forall s t s' i p bc c v,
+  add_transaction s t = Ok s' ->
+  nth_error (t_posts t) i = Some p -> assignment p bc -> eval_pa bc = Ok (PSingle c v) ->
+  exists b b' posts',
+    bal_before s t i b /\ bal_before s t (S i) b' /\
+    s_txns s' = s_txns s ++ [{| o_date := t_date t; o_posts := posts' |}] /\
+    option_map o_amount (nth_error posts' i) =
+      Some (a_single c (v - a_get (bal_get b (p_account p)) c)) /\
+    (bal_wf (s_bal s) -> a_get (bal_get b' (p_account p)) c = v).
+Proof. exact assign_single_exact_txn. Qed.
+Print Assumptions C03_assign_exact_txn.
+
+Theorem C03_assign_zero_exact_txn : forall s t i p bc b,
+  bal_before s t i b ->
+  nth_error (t_posts t) i = Some p -> assignment p bc -> eval_pa bc = Ok PZero ->
+  ((2 <= length (bal_get b (p_account p)))%nat -> add_transaction s t = Err BalanceFailure) /\
+  (forall s', add_transaction s t = Ok s' ->
+     exists b' posts',
+       (length (bal_get b (p_account p)) <= 1)%nat /\
+       bal_before s t (S i) b' /\ bal_get b' (p_account p) = [] /\
+       s_txns s' = s_txns s ++ [{| o_date := t_date t; o_posts := posts' |}] /\
+       option_map o_amount (nth_error posts' i) = Some (a_neg (bal_get b (p_account p)))).
+Proof. exact assign_zero_exact_txn. Qed.
+Print Assumptions C03_assign_zero_exact_txn.
+
+(* "leaves the account at X" at the end of the transaction: C03_assign_exact_txn gives the
+   account's value right after the assignment posting; it is still there when the
+   transaction is done provided no other posting of the transaction (the omitted one
+   included) names the account.  Without that proviso the statement is false of the faithful
+   model: known finding C03-K1, witnessed by C03_assign_final_refuted_K1
+   (`A / A = 5 USD / B 3 USD` leaves A at -3 USD). *)
+Theorem C03_assign_final : forall s t s' i p bc c v,
+  bal_wf (s_bal s) ->
+  add_transaction s t = Ok s' ->
+  nth_error (t_posts t) i = Some p -> assignment p bc -> eval_pa bc = Ok (PSingle c v) ->
+  (forall j pj, j <> i -> nth_error (t_posts t) j = Some pj -> p_account pj <> p_account p) ->
+  a_get (bal_get (s_bal s') (p_account p)) c = v.
+Proof. exact assign_single_final. Qed.
+Print Assumptions C03_assign_final.
+
+Theorem C03_assign_final_refuted_K1 :
+  exists t s' p bc c v,
+    add_transaction bstate0 t = Ok s' /\ bal_wf (s_bal bstate0) /\
+    nth_error (t_posts t) 1 = Some p /\ assignment p bc /\ eval_pa bc = Ok (PSingle c v) /\
+    a_get (bal_get (s_bal s') (p_account p)) c <> v.
+Proof. exact k1_witness. Qed.
+Print Assumptions C03_assign_final_refuted_K1.
+
+(* balances of every reachable state, and of every running balance inside a transaction
+   started from one, have distinct commodities per account *)
+Theorem C03_reachable_wf : forall es s k, process es = (Ok s, k) -> bal_wf (s_bal s).
+Proof. exact reachable_wf. Qed.
+Print Assumptions C03_reachable_wf.
+
+Theorem C03_loop_wf : forall s t st, bal_wf (s_bal s) -> txn_loop s t = Ok st -> bal_wf (l_bal st).
+Proof. exact txn_loop_wf. Qed.
+Print Assumptions C03_loop_wf.
+
+(* (3) two unconstrained postings i < j, the postings before j processed successfully: the
+   transaction is rejected naming i and j.  (A successful prefix holds at most one
+   unconstrained posting - second theorem - so i and j are the first two; if the prefix
+   fails, that failure is the result - third theorem.) *)
+Theorem C03_two_unconstrained_rejected : forall s t i j pi pj stj,
+  (i < j)%nat ->
+  nth_error (t_posts t) i = Some pi -> unconstrained pi ->
+  nth_error (t_posts t) j = Some pj -> unconstrained pj ->
+  txn_loop s (txn_prefix t j) = Ok stj ->
+  add_transaction s t = Err (UndeduciblePostingAmount i j).
+Proof. exact two_unconstrained_rejected. Qed.
+Print Assumptions C03_two_unconstrained_rejected.
+
+Theorem C03_prefix_ok_one_unconstrained : forall s t j stj i k pi pk,
+  txn_loop s (txn_prefix t j) = Ok stj ->
+  (i < j)%nat -> (k < j)%nat ->
+  nth_error (t_posts t) i = Some pi -> unconstrained pi ->
+  nth_error (t_posts t) k = Some pk -> unconstrained pk -> i = k.
+Proof. exact prefix_ok_one_unconstrained. Qed.
+Print Assumptions C03_prefix_ok_one_unconstrained.
+
+Theorem C03_prefix_error_propagates : forall s t k e,
+  txn_loop s (txn_prefix t k) = Err e -> add_transaction s t = Err e.
+Proof. exact prefix_error_propagates. Qed.
+Print Assumptions C03_prefix_error_propagates.
+
+(* (4) frame: accounts not named by the posting / the transaction keep their entry *)
+Theorem C03_frame_posting : forall b d i p b' ep ev a',
+  process_posting b d i p = Ok (b', ep, ev) -> a' <> p_account p -> get a' b' = get a' b.
+Proof. exact process_posting_frame. Qed.
+Print Assumptions C03_frame_posting.
+
+Theorem C03_frame : forall s t s' a',
+  add_transaction s t = Ok s' -> (forall p, In p (t_posts t) -> p_account p <> a') ->
+  get a' (s_bal s') = get a' (s_bal s).
+Proof. exact add_transaction_frame. Qed.
+Print Assumptions C03_frame.
